@@ -1,8 +1,8 @@
 import KinModel.Lemmas.C04Local
 namespace KinModel.DocValidate
 
-theorem localOK_parameters (T : Table) (o : Opts) (a : Attrs) (kids : List (String × Doc)) :
-    localOK T o (.node .parameters a kids) = rulesOK o (.node .parameters a kids) := by
+theorem localOK_parameters (T : Table) (o : Opts) (a : Attrs) (kids : List (String × Doc)) (vs : List Bool) :
+    localOK T o (.node .parameters a kids) vs = rulesOK o (.node .parameters a kids) := by
   simp (disch := decide) only [localOK, rulesOK, violations, Doc.kind, all_when, enabled_plain]
   simp only [bne, Bool.not_not, Bool.not_true, Bool.or_false]
 
@@ -22,27 +22,26 @@ theorem refViols_all (o : Opts) (a : Attrs) :
       cases hk : isExtKey k <;> cases hp : o.extProhibited <;> cases ha : o.allowed.contains k <;> simp_all [enabled]
   · simp
 
-theorem localOK_ref (T : Table) (o : Opts) (k : Kind) (a : Attrs) (kids : List (String × Doc)) (hk : k ∈ refKinds) :
-    localOK T o (.node k a kids) = rulesOK o (.node k a kids) := by
+theorem localOK_ref (T : Table) (o : Opts) (k : Kind) (a : Attrs) (kids : List (String × Doc)) (vs : List Bool)
+    (hk : k ∈ refKinds) :
+    localOK T o (.node k a kids) vs = rulesOK o (.node k a kids) := by
   simp only [refKinds, List.mem_cons, List.not_mem_nil, or_false] at hk
   rcases hk with rfl | rfl | rfl | rfl | rfl | rfl | rfl | rfl | rfl <;>
     simp only [localOK, rulesOK, violations, Doc.kind, Doc.attrs, refViols_all]
 
-theorem hasCheck_ident (T : Table) (o : Opts) (hT : TableOK T = true) (p : String) (hp : p ∈ componentPositions) :
-    hasCheck T o .components ("identifier:" ++ p) = true := by
-  unfold TableOK at hT
-  simp only [Bool.and_eq_true, List.all_eq_true] at hT
-  exact anyHolds_of_nil o _ (hT.2 p hp)
+theorem hasCheck_ident (T : Table) (o : Opts) (a : Attrs) (hT : TableOK T = true) (p : String) (hp : p ∈ componentPositions) :
+    hasCheck T o a .components ("identifier:" ++ p) = true := by
+  exact anyHolds_of_nil o a _ ((tableFacts T hT).ident p hp)
 
-theorem localOK_components (T : Table) (o : Opts) (a : Attrs) (kids : List (String × Doc)) (hT : TableOK T = true) :
-    localOK T o (.node .components a kids) = rulesOK o (.node .components a kids) := by
+theorem localOK_components (T : Table) (o : Opts) (a : Attrs) (kids : List (String × Doc)) (vs : List Bool)
+    (hT : TableOK T = true) :
+    localOK T o (.node .components a kids) vs = rulesOK o (.node .components a kids) := by
   have hx := checkExt_eq T o (.node .components a kids) hT (by simp [extKinds, Doc.kind])
   simp only [localOK, rulesOK, violations, Doc.kind, Doc.attrs, componentsOKCode, List.all_append, extra_all, hx, List.all_flatMap]
   congr 1
   apply all_congr_mem
   intro p hp
-  rw [hasCheck_ident T o hT p hp]
-  simp only [if_true]
+  simp only [hasCheck_ident T o _ hT p hp, if_true]
   apply all_congr_mem
   intro c _
   simp (disch := decide) only [all_when, enabled_plain]
